@@ -17,3 +17,20 @@ Theorem C02_print_norm_partial : forall minify w,
   wf_word w -> print_word minify (norm_word minify w) = print_word minify w.
 Proof. exact print_word_norm. Qed.
 Print Assumptions C02_print_norm_partial.
+
+(* ------------------------------------------------------------------ level S (statements)
+   fmt(fmt(t)) = fmt(t) on the MiniSh statement fragment under SingleLine: whatever the
+   model parser reads back from a printed well-formed tree prints to the same bytes.
+   PARTIAL: SingleLine only, where no layout decision reads a position; the
+   position-driven multi-line layout (the hard part of idempotence) is search only. *)
+From Verif Require Import Syntax.MiniAst Syntax.MiniPrinter Syntax.MiniParser Proofs.MiniRoundtrip.
+
+Theorem C02_stmt_idempotent_partial : forall o t t', opts_single o -> wf_file t ->
+  parse_file (print_file o t) = Some t' -> print_file o t' = print_file o t.
+Proof. exact stmt_idempotent. Qed.
+Print Assumptions C02_stmt_idempotent_partial.
+
+Theorem C02_stmt_text_fixpoint_partial : forall o t, opts_single o -> wf_file t ->
+  option_map (print_file o) (parse_file (print_file o t)) = Some (print_file o t).
+Proof. exact stmt_text_fixpoint. Qed.
+Print Assumptions C02_stmt_text_fixpoint_partial.
